@@ -64,7 +64,11 @@ func (v *Voting[_, _]) outcomeIndex(numRequiredVotes int) (int, bool) {
 	for _, vote := range v.Votes {
 		numVotes[vote]++
 	}
-	for index, votes := range numVotes {
+	// Iterate the candidates in their (deterministic) order of first appearance instead of the
+	// vote-count map: if more than one candidate has reached the required number of votes, every
+	// replica must pick the same one.
+	for index := range v.Candidates {
+		votes := numVotes[index]
 		if votes >= numRequiredVotes {
 			return index, true
 		}
